@@ -235,7 +235,7 @@ class PVManager(ComponentManager):
                     failed_components=failed_components,
                     succeeded_components=succeeded_components,
                     failed_power=failed_power,
-                    succeeded_power=self._target_power - failed_power,
+                    succeeded_power=request.power - remaining_power - failed_power,
                     excess_power=remaining_power,
                     request=request,
                 )
@@ -244,7 +244,7 @@ class PVManager(ComponentManager):
         await self._results_sender.send(
             Success(
                 succeeded_components=succeeded_components,
-                succeeded_power=self._target_power,
+                succeeded_power=request.power - remaining_power,
                 excess_power=remaining_power,
                 request=request,
             )
